@@ -96,14 +96,17 @@ def _alarm(signum, frame):
 
 
 def timed(fn, seconds):
-    """absval.outcome(fn) under an interval timer; ('timeout',) when it fires."""
-    signal.setitimer(signal.ITIMER_REAL, seconds)
+    """absval.outcome(fn) under an interval timer; ('timeout',) when it fires (also when it
+    fires between the end of fn and the disarming of the timer: nothing escapes)."""
     try:
-        return absval.outcome(fn)
+        signal.setitimer(signal.ITIMER_REAL, seconds)
+        try:
+            return absval.outcome(fn)
+        finally:
+            signal.setitimer(signal.ITIMER_REAL, 0)
     except Timeout:
-        return ("timeout",)
-    finally:
         signal.setitimer(signal.ITIMER_REAL, 0)
+        return ("timeout",)
 
 
 # ------------------------------------------------------------ model states
@@ -554,9 +557,16 @@ def _run_chunk(cases):
     out = []
     for c in cases:
         try:
-            out.append(run_case(c))
+            try:
+                out.append(run_case(c))
+            except Timeout:         # a stray alarm (none should be pending): once more, in a new session
+                signal.setitimer(signal.ITIMER_REAL, 0)
+                _worker_init()
+                out.append(run_case(c))
         except MachineryError as e:
             out.append({"machinery": str(e)})
+        except Timeout:
+            out.append({"machinery": "stray timer signal in a replay worker, twice"})
     return out
 
 
